@@ -82,3 +82,13 @@ def build(c):
     for s in c["finals"]:
         f.add_final_state(sval(c, s))
     return f
+
+
+def ref_of_case(c):
+    """the reference transducer straight from the case record (what the caller added)"""
+    from vf.ref import fst as rf
+    ins = c.get("ins") or INS
+    outs = c.get("outs") or OUTS
+    trans = [(sval(c, p), rf.EPS if a < 0 else ins[a], sval(c, q), tuple(outs[o] for o in out))
+             for p, a, q, out in c["trans"]]
+    return rf.FST([], [sval(c, s) for s in c["starts"]], [sval(c, s) for s in c["finals"]], trans)
